@@ -533,7 +533,7 @@ def run(prop, tier, seed, replay):
                 'comparisons + re.escape comparisons + stage-level query comparisons (results compared as multisets); evaluations = calls of '
                 'the real query functions made by the oracle',
         'samples': samples or [{'note': 'no generated sample'}],
-        'exhaustive': ('matcher level: every glob pattern of length <= %d over %r and every regex text of length <= %d over %r against every value '
+        'exhaustive': False, 'exhaustive_part': ('matcher level: every glob pattern of length <= %d over %r and every regex text of length <= %d over %r against every value '
                        'of length <= 2 over %r (quick: all patterns of length <= 2 and a sample of length 3)'
                        % (3, ''.join(qc.GLOB_ALPHABET), 3, ''.join(qc.RE_ALPHABET), ''.join(qc.VALUE_ALPHABET))) if tier != 'quick' else False,
         'generator_histogram': hist,
